@@ -122,7 +122,7 @@ func (x *exec) frameBody(fi *frameInfo, n, t0, t1, r, j string) string {
 	return Imp(And(excl...), Eq(Sel(t1, r), Sel(t0, r)))
 }
 
-func frameExempt(n string) bool { return n == "alive" || n == "gv" }
+func frameExempt(n string) bool { return n == "alive" || n == "gv" || strings.HasPrefix(n, "G!") }
 
 // frameCheck proves at function exit that only the declared locations changed.
 func (x *exec) frameCheck(fr *frame, fi *frameInfo, exit *State) {
@@ -139,6 +139,14 @@ func (x *exec) frameCheck(fr *frame, fi *frameInfo, exit *State) {
 	}
 	sort.Strings(names)
 	for _, n := range names {
+		if strings.HasPrefix(n, "G!") {
+			// package-level variables cannot be listed in modifies: they must be unchanged
+			t0 := x.h.get(fi.entry, n, x.h.sorts[n])
+			if t1 := exit.heap[n]; t0 != t1 {
+				x.oblig(fr, exit.clone(), "frame", shortHeapName(n), x.fnPos, Eq(t1, t0), nil)
+			}
+			continue
+		}
 		if frameExempt(n) {
 			continue
 		}
